@@ -150,6 +150,11 @@ def uninstall() -> None:
         _installed["meter"] = None
 
 
+# divisors of 64 only: the small and the huge variant of a case have capacities congruent modulo 64, so for these divisors (and no
+# others) the two variants legitimately cost the same
+OTHER_DIVISORS = [2, 4, 16, 64]
+
+
 def exercise_api(spec: typing.Any) -> None:
     """Everything the statement lists, on two independently built copies."""
     import pydsdl
@@ -167,6 +172,18 @@ def exercise_api(spec: typing.Any) -> None:
                     _ = (off2.min, off2.max, off2.is_aligned_at_byte())
     _ = (a == b, hash(a) == hash(b), a != b)
     _ = {a, b}
+    # alignment at other divisors than the byte: "no set larger than the queried divisor" holds for whatever divisor is queried.
+    # Only divisors whose *legitimate* cost (multicombinations of the residues, counts reduced below 2d) is small are asked, so
+    # that anything beyond the budget is cost that grows with the capacities.
+    tree = layout.tree(spec)
+    for d in OTHER_DIVISORS:
+        try:
+            if rbls.modulo_cost(tree, d) > 300_000:
+                continue
+        except rbls.TooBig:
+            continue
+        s = a.bit_length_set
+        _ = (s.is_aligned_at(d), sorted(s % d)[:3])
 
 
 def measure(fn: typing.Callable[[], None]) -> typing.Tuple[Meter, typing.Optional[BaseException]]:
